@@ -78,7 +78,7 @@ def plant_canaries(ctx, beh_path):
     want = ["readback", "frame"]
     for r, w in zip(got, want):
         if not any(m.get("obs") == w for m in (r.get("mismatch") or [])):
-            raise MachineryFault("canary (%s) was accepted by the replay comparison" % w)
+            ctx.defer_fault("canary (%s) was accepted by the replay comparison" % w)
     if len(got) != 2:
         raise MachineryFault("canary run produced %d results" % len(got))
 
@@ -91,7 +91,8 @@ def run(ctx):
                 "of every spelling x {whole, sub-field key} cell after every operation; distinct = distinct operation sequences")
     ctx.assumptions = [
         "alphabet: header names Foo/fOO/FOO, X-Bar/x-bar; keys a, b, ab; values over {x, y, space, comma, =, newline}, empty, "
-        "not-set; no backslash or double quote in written values (quotes arise from setField's own quoting only)",
+        "not-set; sub-field values with every character the quoting rule of field.go treats specially, a double quote, a backslash "
+        "(before a letter, at the end, before a quote, doubled) in the 'special' alphabet",
         "vcl_pipe is not simulated by the interpreter (SetScope has no arm), so (req|bereq, PIPE) are not exercised",
         "sequences that mix a not-set API value and a not-set VCL expression are expressible in neither binding and are skipped",
         "Cookie sub-fields (separate code path) are outside the alphabet",
@@ -120,11 +121,12 @@ def run(ctx):
     #           does not distinguish), one object, and five objects of one context ("multi")
     #    walk:  seeded random walks over the large alphabet
     if quick:
-        runs = [("cover", "quick", 3, None, "all"), ("seq", "small", 4, None, "sampled"), ("seq", "multi", 3, None, "multi"),
+        runs = [("cover", "quick", 3, None, "all"), ("seq", "special", 2, None, "all"),
+                ("seq", "small", 4, None, "sampled"), ("seq", "multi", 3, None, "multi"),
                 ("walk", "thorough", 8, 400, "sampled")]
     else:
         runs = [("cover", "thorough", 3, None, "all"), ("cover", "deep", 4, None, "sampled"),
-                ("seq", "small12", 5, None, "sampled"), ("seq", "multi", 3, None, "multi"),
+                ("seq", "small12", 5, None, "sampled"), ("seq", "special", 3, None, "sampled"), ("seq", "multi", 3, None, "multi"),
                 ("walk", "thorough", 8, 4000, "sampled")]
     groups = {}
     for mode, alpha, depth, sim, how in runs:
